@@ -343,6 +343,5 @@ PROP = Prop(
         "pendulum.parse(exact=True) calendar validity, Python re on the two ISO expressions and int() literal syntax are modelled on the ASCII alphabet (PeriodText.lean), tied by this correspondence",
         "claim domain: aligned periods of size >= 1, years 1000..9999, rejection classes of the statement; sizes <= 0, int() oddities (+3, 1_0, blanks), unaligned printing are compared but not binding",
     ],
-    partial_theorems=["C05_reject_finer_unit_partial"],
     exhaustive_note="thorough: all tails of length <= 4 over {0,1,9,-,:,W} after 10 valid prefixes",
 )
